@@ -35,6 +35,10 @@ def signature_cache(user_function):
     cache_get = cache.get
 
     def cached_function(cls, method):
+        if hasattr(method, "__signature__"):
+            # an explicit signature belongs to this very object: callables that share name and
+            # code (closures of one factory) may each declare their own
+            return user_function(cls, method)
         key = _make_key(method)
         sig = cache_get(key)
         if sig is None:
